@@ -136,3 +136,83 @@ pub proof fn lemma_sig_concat_first(s: Seq<&SyntaxNode>)
         assert(s.drop_last()[0] == s[0]);
     }
 }
+/// PF13: below a Math or Markup node there are only expressions and tokens
+#[verifier::external_body]
+pub proof fn pf_math_children(n: &SyntaxNode)
+    requires tree_wf(n), n.kind_s() == SyntaxKind::Math || n.kind_s() == SyntaxKind::Markup,
+    ensures forall|j: int| 0 <= j < n.children_s().len() ==> ast::expr_kind((#[trigger] n.children_s()[j]).kind_s()) || !is_inner_kind(n.children_s()[j].kind_s()),
+{}
+
+// ---- words of the flattened markup representation (prelude/markupspec.rs) ----
+pub open spec fn tok_words(t: MTok) -> Seq<Seq<char>> { match t { MTok::Node(c) => sig_leaves(c), MTok::Brk(_) => Seq::empty() } }
+pub open spec fn toks_words(ts: Seq<MTok>) -> Seq<Seq<char>> decreases ts.len() {
+    if ts.len() == 0 { Seq::empty() } else { toks_words(ts.drop_last()) + tok_words(ts.last()) }
+}
+pub proof fn lemma_toks_words_push(ts: Seq<MTok>, t: MTok)
+    ensures toks_words(ts.push(t)) == toks_words(ts) + tok_words(t),
+{
+    reveal_with_fuel(toks_words, 2);
+    assert(ts.push(t).drop_last() =~= ts);
+}
+pub proof fn lemma_toks_words_concat(a: Seq<MTok>, b: Seq<MTok>)
+    ensures toks_words(a + b) =~= toks_words(a) + toks_words(b),
+    decreases b.len(),
+{
+    reveal_with_fuel(toks_words, 2);
+    if b.len() == 0 { assert(a + b =~= a); }
+    else {
+        assert((a + b).drop_last() =~= a + b.drop_last());
+        assert((a + b).last() == b.last());
+        lemma_toks_words_concat(a, b.drop_last());
+    }
+}
+pub open spec fn ws_wordless(s: Seq<&SyntaxNode>) -> bool { forall|j: int| 0 <= j < s.len() && is_ws_kind((#[trigger] s[j]).kind_s()) ==> sig_leaves(s[j]).len() == 0 }
+pub proof fn lemma_toks_of_words(s: Seq<&SyntaxNode>)
+    requires ws_wordless(s),
+    ensures toks_words(toks_of(s)) =~= sig_concat(s),
+    decreases s.len(),
+{
+    reveal_with_fuel(toks_of, 2); reveal_with_fuel(sig_concat, 2); reveal_with_fuel(toks_words, 3);
+    if s.len() > 0 {
+        let p = s.drop_last();
+        assert forall|j: int| 0 <= j < p.len() && is_ws_kind((#[trigger] p[j]).kind_s()) implies sig_leaves(p[j]).len() == 0 by { assert(p[j] == s[j]); }
+        lemma_toks_of_words(p);
+        lemma_toks_words_concat(toks_of(p), child_toks(s.last()));
+        let c = s.last();
+        if is_break_child(c) {
+            assert(is_ws_kind(c.kind_s()));
+            assert(sig_leaves(c) =~= Seq::<Seq<char>>::empty());
+            assert(toks_words(child_toks(c)) =~= Seq::<Seq<char>>::empty());
+        } else {
+            assert(child_toks(c) =~= seq![MTok::Node(c)]);
+            assert(seq![MTok::Node(c)].drop_last() =~= Seq::<MTok>::empty());
+            assert(toks_words(child_toks(c)) =~= sig_leaves(c));
+        }
+    }
+}
+/// C01 / C06: the flattened representation carries exactly the words of the markup's children
+pub proof fn lemma_flat_words(ch: Seq<&SyntaxNode>)
+    requires ws_wordless(ch),
+    ensures toks_words(markup_flat(ch)) =~= sig_concat(ch),
+{
+    let lead = markup_lead(ch);
+    let trail = markup_trail(ch);
+    let n = ch.len() as int;
+    let mid = markup_mid(ch);
+    assert forall|j: int| 0 <= j < mid.len() && is_ws_kind((#[trigger] mid[j]).kind_s()) implies sig_leaves(mid[j]).len() == 0 by { assert(mid[j] == ch[lead + j]); }
+    lemma_toks_of_words(mid);
+    lemma_toks_words_concat(toks_of(mid), markup_tail(ch));
+    reveal_with_fuel(toks_words, 3); reveal_with_fuel(sig_concat, 2);
+    if markup_tail(ch).len() > 0 { assert(markup_tail(ch).drop_last() =~= Seq::<MTok>::empty()); }
+    assert(toks_words(markup_tail(ch)) =~= Seq::<Seq<char>>::empty());
+    // the edges carry no words
+    lemma_sig_concat_split(ch, lead);
+    lemma_sig_concat_split(ch.subrange(lead, n), n - trail - lead);
+    assert(ch.subrange(lead, n).subrange(0, n - trail - lead) =~= mid);
+    let a = ch.subrange(0, lead);
+    let z = ch.subrange(lead, n).subrange(n - trail - lead, n - lead);
+    if lead == 1 { assert(a.drop_last() =~= Seq::<&SyntaxNode>::empty()); assert(a.last() == ch[0]); assert(sig_concat(a) =~= Seq::<Seq<char>>::empty()); }
+    else { assert(a =~= Seq::<&SyntaxNode>::empty()); }
+    if trail == 1 { assert(z.drop_last() =~= Seq::<&SyntaxNode>::empty()); assert(z.last() == ch[n - 1]); assert(sig_concat(z) =~= Seq::<Seq<char>>::empty()); }
+    else { assert(z =~= Seq::<&SyntaxNode>::empty()); }
+}
